@@ -535,7 +535,12 @@ class Engine(object):
             if rv["kind"] == "IntToInt":
                 fb, tb = _INT_BITS.get(rv["from"]), _INT_BITS.get(rv["to"])
                 if fb and tb and (tb < fb or (tb == fb and rv["from"][0] != rv["to"][0])):
-                    return ("cast", rv["from"], rv["to"], self.val(st, v))
+                    vv = self.val(st, v)
+                    if vv[0] == "lit" and isinstance(vv[1], int) and not isinstance(vv[1], bool):
+                        lo, hi = (-(2 ** (tb - 1)), 2 ** (tb - 1) - 1) if rv["to"][0] == "i" else (0, 2 ** tb - 1)
+                        if lo <= vv[1] <= hi:
+                            return vv          # lossless on this constant
+                    return ("cast", rv["from"], rv["to"], vv)
                 return v
             return v
         if k == "bin":
